@@ -120,7 +120,7 @@ def rule_allproviders(ctx: Ctx):
     rep.floor("C12.allproviders", "executor.add sites on paths of resolve()", n_add, 2)
 
 
-def rule_filter(ctx: Ctx):
+def rule_filter(ctx: Ctx, rule: str = "C12.allproviders"):
     """C12.allproviders: which specs resolve() skips, as a truth table over (reference allowed, is_convention, name found)."""
     from .. import boolfn
 
@@ -138,7 +138,7 @@ def rule_filter(ctx: Ctx):
             if isinstance(st_, ast.If) and any(isinstance(x, ast.Continue) for x in st_.body):
                 skip_tests.append(st_.test)
         if len(skip_tests) != 1:
-            rep.unrecognised("C12.allproviders", rs.loc(), f"{len(skip_tests)} skip tests in resolve()")
+            rep.unrecognised(rule, rs.loc(), f"{len(skip_tests)} skip tests in resolve()")
         seen = True
         test = skip_tests[0]
         sp = its[0].node.target.id if isinstance(its[0].node.target, ast.Name) else "spec"
@@ -162,7 +162,7 @@ def rule_filter(ctx: Ctx):
         try:
             got = boolfn.table(test, atom, dom)
         except boolfn.Unrecognised as u:
-            rep.unrecognised("C12.allproviders", rs.loc(), f"skip condition uses `{u}`")
+            rep.unrecognised(rule, rs.loc(), f"skip condition uses `{u}`")
 
         def spec_fn(**kw):
             not_allowed = kw.get("REF_NOT_ALLOWED", not kw.get("REF_ALLOWED", True))
@@ -171,12 +171,12 @@ def rule_filter(ctx: Ctx):
             return not_allowed or (conv and not_found)
 
         want = boolfn.spec_table(spec_fn, dom)
-        rep.check(got == want and {"CONVENTION"} <= present and (present & {"REF_NOT_ALLOWED", "REF_ALLOWED"}), "C12.allproviders", rs.loc(),
+        rep.check(got == want and {"CONVENTION"} <= present and (present & {"REF_NOT_ALLOWED", "REF_ALLOWED"}), rule, rs.loc(),
                   "a spec is skipped exactly when its reference kind is not allowed, or it is a naming-convention spec no provider defines",
                   rs.key, f"skip if {show(test)}", atoms=sorted(present))
         fc = [e for e in p.of("bind") if e.x["name"] == "found_convention_specs"]
         if fc:
-            rep.check(xshow(fc[0].term, evs) == f"{rs.params[1]}.conventional_specs & self.all_attrs", "C12.allproviders", fc[0].loc(),
+            rep.check(xshow(fc[0].term, evs) == f"{rs.params[1]}.conventional_specs & self.all_attrs", rule, fc[0].loc(),
                       "convention names count as found when any provider has an attribute of that name", rs.key, norm_stmt(fc[0].node))
         break
     if not seen:
@@ -184,39 +184,39 @@ def rule_filter(ctx: Ctx):
     fl = ctx.fn("Listeners.from_listeners")
     for p in ctx.paths(fl, inline=None, exc_edges="none"):
         v = xshow(p.value, p.events) if p.kind == "return" else ""
-        rep.check("set().union(*(" in v and ".all_attrs for " in v and v.startswith("cls(tuple("), "C12.allproviders", fl.loc(),
+        rep.check("set().union(*(" in v and ".all_attrs for " in v and v.startswith("cls(tuple("), rule, fl.loc(),
                   "the provider set knows the attribute names of all its providers", fl.key, f"return {v}")
 
 
-def rule_samepath(ctx: Ctx):
+def rule_samepath(ctx: Ctx, rule: str = "C12.same-path"):
     rep = ctx.rep
     g = callgraph(ctx)
     al = ctx.fn("StateMachine._add_listener")
     callers = {c.qualname for c, _, _ in g.callers(al)}
-    rep.check(callers == {"StateMachine._register_callbacks", "StateMachine.add_listener"}, "C12.same-path", al.loc(),
+    rep.check(callers == {"StateMachine._register_callbacks", "StateMachine.add_listener"}, rule, al.loc(),
               "constructor-time and late providers are attached through the same _add_listener", al.key, f"callers: {sorted(callers)}")
     for p in ctx.paths(al, inline=None, exc_edges="none", unroll=1):
         evs = p.events
         its = [e for e in evs if e.kind == "iter" and e.x.get("loop") == "for"]
         if its:
-            rep.check(xshow(its[0].term, evs) == "iterate_states_and_transitions(self.states)", "C12.same-path", its[0].loc(),
+            rep.check(xshow(its[0].term, evs) == "iterate_states_and_transitions(self.states)", rule, its[0].loc(),
                       "providers are resolved against the specs of every state and every transition", al.key, norm_stmt(its[0].node))
         for e in p.calls():
             if isinstance(e.term.func, ast.Attribute) and e.term.func.attr == "resolve":
                 kw = {k.arg: xshow(k.value, evs) for k in e.term.keywords}
                 pos = [xshow(a, evs) for a in e.term.args]
                 ok = pos and pos[0].endswith("._specs") and kw.get("registry") == "self._callbacks" and kw.get("allowed_references") == al.params[2]
-                rep.check(bool(ok), "C12.same-path", e.loc(), "resolution targets this instance's registry with the caller's reference policy", al.key, norm_stmt(e.node))
+                rep.check(bool(ok), rule, e.loc(), "resolution targets this instance's registry with the caller's reference policy", al.key, norm_stmt(e.node))
     it = ctx.fn("iterate_states_and_transitions")
     ys = [norm_stmt(n) for n in sorted((n for n in own_nodes(it.node) if isinstance(n, ast.Expr) and isinstance(n.value, (ast.Yield, ast.YieldFrom))),
                                        key=lambda n: n.lineno)]
-    rep.check(ys == ["yield state", "yield from state.transitions"], "C12.same-path", it.loc(), "every state and each of its transitions is visited", it.key, "; ".join(ys))
+    rep.check(ys == ["yield state", "yield from state.transitions"], rule, it.loc(), "every state and each of its transitions is visited", it.key, "; ".join(ys))
     rc = ctx.fn("StateMachine._register_callbacks")
     for p in ctx.paths(rc, inline=None, exc_edges="none", unroll=1):
         evs = p.events
         adds = [e for e in p.calls() if isinstance(e.term.func, ast.Attribute) and e.term.func.attr == "_add_listener"]
         if not adds:
-            rep.violation("C12.same-path", rc.loc(), "_register_callbacks does not attach providers", rc.key, "no _add_listener call")
+            rep.violation(rule, rc.loc(), "_register_callbacks does not attach providers", rc.key, "no _add_listener call")
             continue
         arg = expand(adds[0].term.args[0], evs)
         ok = isinstance(arg, ast.Call) and show(arg.func) == "Listeners.from_listeners" and isinstance(arg.args[0], ast.Tuple)
@@ -225,10 +225,10 @@ def rule_samepath(ctx: Ctx):
             ok = len(el) == 3 and show(el[0]).startswith("Listener.from_obj(self, skip_attrs=self._protected_attrs") and \
                 show(el[1]).startswith("Listener.from_obj(self.model, skip_attrs={self.state_field}") and isinstance(el[2], ast.Starred) and \
                 "Listener.from_obj(" in show(el[2]) and show(el[2]).endswith(f"in {rc.params[1]})")
-        rep.check(bool(ok), "C12.same-path", adds[0].loc(), "providers are the machine, then the model, then every listener, each wrapped the same way",
+        rep.check(bool(ok), rule, adds[0].loc(), "providers are the machine, then the model, then every listener, each wrapped the same way",
                   rc.key, norm_stmt(adds[0].node))
         kw = {k.arg for k in adds[0].term.keywords}
-        rep.check("allowed_references" not in kw and len(adds[0].term.args) == 1, "C12.same-path", adds[0].loc(),
+        rep.check("allowed_references" not in kw and len(adds[0].term.args) == 1, rule, adds[0].loc(),
                   "constructor-time providers may satisfy every kind of reference", rc.key, norm_stmt(adds[0].node))
         break
     ad = ctx.fn("StateMachine.add_listener")
@@ -241,10 +241,10 @@ def rule_samepath(ctx: Ctx):
             kw = {k.arg: show(k.value) for k in adds[0].term.keywords}
             ok = isinstance(arg, ast.Call) and show(arg.func) == "Listeners.from_listeners" and "Listener.from_obj(" in show(arg) and \
                 show(arg).endswith(f"in {ad.node.args.vararg.arg}))") and kw.get("allowed_references") == "SPECS_SAFE"
-        rep.check(bool(ok), "C12.same-path", ad.loc(), "late listeners are wrapped the same way and restricted to name references", ad.key,
+        rep.check(bool(ok), rule, ad.loc(), "late listeners are wrapped the same way and restricted to name references", ad.key,
                   "; ".join(e.show() for e in adds))
     mod = ctx.p.module("statemachine/callbacks.py")
-    rep.check(show(mod.assigns.get("SPECS_SAFE")) == "SpecReference.NAME", "C12.same-path", f"{mod.rel} SPECS_SAFE", "SPECS_SAFE is the NAME reference kind",
+    rep.check(show(mod.assigns.get("SPECS_SAFE")) == "SpecReference.NAME", rule, f"{mod.rel} SPECS_SAFE", "SPECS_SAFE is the NAME reference kind",
               f"{mod.rel}::SPECS_SAFE", f"SPECS_SAFE = {show(mod.assigns.get('SPECS_SAFE'))}")
 
 
